@@ -27,6 +27,7 @@ RULE = ("exhaustive part (same for every seed): simple polygons given as vertex 
         "random points in and around the bounding box; vertices and points as tuples, lists or Pxy namedtuples; "
         "a case = one polygon with all its test points; distinct = distinct vertex sequence; non-trivial = at least "
         "one test point strictly inside or on an edge but not a vertex")
+RULE = __import__("vf.core", fromlist=["rule_add"]).rule_add(RULE, 'also point containers of other kinds and one polygon object reused for all its points')
 META = {"engine": "C function",
         "technique": "differential test against exact rational geometry (all small grid polygons + random large ones)",
         "level_text": "exploration: the small grid is enumerated completely (see exhaustive_scope), larger polygons are "
